@@ -359,6 +359,11 @@ def signature(d: Desc) -> str:
     return t if not cs and t not in ("Columns", "Group") else "%s(%s)" % (t, ",".join(signature(c) for c in cs))
 
 
+def sig_key(d: Desc) -> str:
+    """short stable hash of the shape signature (what the distinct-case count is keyed on)"""
+    return hashlib.sha1(signature(d).encode()).hexdigest()[:12]
+
+
 def key_of(d: Desc, width: Optional[int] = None, prefix: str = "") -> str:
     h = hashlib.sha1(json.dumps([d, width], sort_keys=True, ensure_ascii=True).encode()).hexdigest()[:12]
     return f"{prefix}{h}"
@@ -843,28 +848,55 @@ def shrinks(d: Desc) -> Iterator[Desc]:
                     yield n
 
 
-def minimise(d: Desc, w: int, fails: Callable[[Desc, int], Optional[int]], max_evals: int = 2500,
-             max_seconds: float = 8.0) -> Tuple[Desc, int]:
-    """greedy descent.  fails(desc, hint_width) -> a failing width for desc (or None)."""
+def minimise(d: Desc, w: int, fails_at: Callable[[Desc, Any, int], bool], min_width: Callable[[Desc], int],
+             max_evals: int = 1500, max_seconds: float = 5.0, extra_widths: Optional[Callable[[Desc], List[int]]] = None
+             ) -> Tuple[Desc, int]:
+    """greedy descent over shrinks().  fails_at(desc, renderable, width) -> bool (same failure still there);
+    a candidate is tried at the current failing width, at the same offset from its own smin, and at the first widths of
+    its domain (min_width(desc) is the smallest width the clause speaks about)."""
     t0 = time.time()
     evals = 0
     cur, cur_w = d, w
     progress = True
     while progress and evals < max_evals and time.time() - t0 < max_seconds:
         progress = False
+        sm_cur = smin(cur)
         for cand in shrinks(cur):
             if evals >= max_evals or time.time() - t0 > max_seconds:
                 break
             if not valid(cand):
                 continue
-            evals += 1
-            try:
-                fw = fails(cand, cur_w)
-            except CaseTimeout:
-                fw = None
-            if fw is not None:
-                cur, cur_w = copy.deepcopy(cand), fw
+            ok, r = guarded(lambda: build(cand), 2.0)
+            if not ok:
+                continue
+            lo = min_width(cand)
+            sm = smin(cand)
+            ws: List[int] = []
+            for x in [cur_w, sm + (cur_w - sm_cur), lo, lo + 1, sm, sm + 1] + (extra_widths(cand) if extra_widths else []):
+                if x >= lo and x not in ws:
+                    ws.append(x)
+            hit = None
+            for x in ws:
+                evals += 1
+                try:
+                    if fails_at(cand, r, x):
+                        hit = x
+                        break
+                except CaseTimeout:
+                    pass
+            if hit is not None:
+                cur, cur_w = copy.deepcopy(cand), hit
                 progress = True
+                break
+    # the smallest failing width of the minimal tree (bounded scan)
+    ok, r = guarded(lambda: build(cur), 2.0)
+    if ok:
+        for x in range(min_width(cur), min(cur_w, min_width(cur) + 40)):
+            try:
+                if fails_at(cur, r, x):
+                    cur_w = x
+                    break
+            except CaseTimeout:
                 break
     return cur, cur_w
 
